@@ -31,31 +31,36 @@ def gen_format(f):
     o.append('#include "%s"' % f['header'])
     o.append(COMPAT.get(f['id'], ''))
     fid = f['id']
+    # every argument of every call below is wrapped in AE(): a function call evaluates each argument exactly once, so a
+    # function-like macro shadowing an API name that evaluates one twice (or not at all) is reported by vp_argeval_report()
+    o.append('extern void vp_argeval_report(const char* fn, unsigned got, unsigned expect);')
+    o.append('#define AE(x) (ae++, (x))')
+    o.append('#define AE_END(fn, n) do { if (ae != (n)) vp_argeval_report(fn, ae, n); } while (0)')
     for x in f['fields']:
         if x['dget']:
-            o.append('static uint64_t dget_%s(void* p) { return (uint64_t)%s((%s*)p); }' % (x['name'], x['dget'], T))
-            o.append('static void dset_%s(void* p, uint64_t v) { %s((%s*)p, v); }' % (x['name'], x['dset'], T))
+            o.append('static uint64_t dget_%s(void* p) { unsigned ae = 0; uint64_t r = (uint64_t)%s(AE((%s*)p)); AE_END("%s", 1); return r; }' % (x['name'], x['dget'], T, x['dget']))
+            o.append('static void dset_%s(void* p, uint64_t v) { unsigned ae = 0; %s(AE((%s*)p), AE(v)); AE_END("%s", 2); }' % (x['name'], x['dset'], T, x['dset']))
     api = f['api']
-    o.append('static uint64_t gget(void* p, uint32_t id) { return %s((%s*)p, id); }' % (api['gget'], T))
-    o.append('static void gset(void* p, uint32_t id, uint64_t v) { %s((%s*)p, id, v); }' % (api['gset'], T))
+    o.append('static uint64_t gget(void* p, uint32_t id) { unsigned ae = 0; uint64_t r = %s(AE((%s*)p), AE(id)); AE_END("%s", 2); return r; }' % (api['gget'], T, api['gget']))
+    o.append('static void gset(void* p, uint32_t id, uint64_t v) { unsigned ae = 0; %s(AE((%s*)p), AE(id), AE(v)); AE_END("%s", 3); }' % (api['gset'], T, api['gset']))
     if api.get('init'):
-        o.append('static void init(void* p) { %s((%s*)p); }' % (api['init'], T))
+        o.append('static void init(void* p) { unsigned ae = 0; %s(AE((%s*)p)); AE_END("%s", 1); }' % (api['init'], T, api['init']))
     if api.get('payload'):
-        o.append('static uint8_t* payload_ptr(void* p) { return %s((%s*)p); }' % (api['payload'], T))
+        o.append('static uint8_t* payload_ptr(void* p) { unsigned ae = 0; uint8_t* r = %s(AE((%s*)p)); AE_END("%s", 1); return r; }' % (api['payload'], T, api['payload']))
     if api.get('image') is not None:
         o.append('static const uint8_t image[] = { %s };' % ', '.join('0x%02x' % b for b in api['image']))
     lg = f['legacy']
     if lg:
-        o.append('static int lget(void* p, uint32_t id, void* val) { return %s(p, id, val); }' % lg['get'])
+        o.append('static int lget(void* p, uint32_t id, void* val) { unsigned ae = 0; int r = %s(AE(p), AE(id), AE(val)); AE_END("%s", 3); return r; }' % (lg['get'], lg['get']))
         if lg['valbytes'] == 4:
-            o.append('static int lset(void* p, uint32_t id, uint64_t v) { return %s(p, id, (uint32_t)v); }' % lg['set'])
+            o.append('static int lset(void* p, uint32_t id, uint64_t v) { unsigned ae = 0; int r = %s(AE(p), AE(id), AE((uint32_t)v)); AE_END("%s", 3); return r; }' % (lg['set'], lg['set']))
         else:
-            o.append('static int lset(void* p, uint32_t id, uint64_t v) { return %s(p, id, v); }' % lg['set'])
+            o.append('static int lset(void* p, uint32_t id, uint64_t v) { unsigned ae = 0; int r = %s(AE(p), AE(id), AE(v)); AE_END("%s", 3); return r; }' % (lg['set'], lg['set']))
         if lg['init']:
             if lg['initarg']:
-                o.append('static int linit(void* p, uint32_t arg) { return %s(p, (uint8_t)arg); }' % lg['init'])
+                o.append('static int linit(void* p, uint32_t arg) { unsigned ae = 0; int r = %s(AE(p), AE((uint8_t)arg)); AE_END("%s", 2); return r; }' % (lg['init'], lg['init']))
             else:
-                o.append('static int linit(void* p, uint32_t arg) { (void)arg; return %s(p); }' % lg['init'])
+                o.append('static int linit(void* p, uint32_t arg) { unsigned ae = 0; (void)arg; int r = %s(AE(p)); AE_END("%s", 1); return r; }' % (lg['init'], lg['init']))
     # direct-call sequence
     steps = []   # (field index, path, get expr, set stmt)
     for i, x in enumerate(f['fields']):
